@@ -1,1 +1,357 @@
-(** Proofs/AliasProofs.v — placeholder, to be written. *)
+(** Proofs/AliasProofs.v — lemmas about the heap machine of Model/Alias.v (property C12). *)
+From Coq Require Import List String Ascii ZArith Bool Arith Lia.
+From PV Require Import Alias.
+Import ListNotations.
+Open Scope string_scope.
+Open Scope list_scope.
+
+(* ================================================================ A. interleaving *)
+Section InterleaveProofs.
+  Context {S Pv O : Type} (stp : S -> Pv -> O -> S * Pv).
+
+  Lemma read_only_exec : forall ops s p,
+    read_only stp s p ops -> fst (exec stp s p ops) = s.
+  Proof.
+    induction ops as [|o r IH]; intros s p H; cbn in *; [reflexivity|].
+    destruct H as [H1 H2]. destruct (stp s p o) as [s1 p1] eqn:E. cbn in *. subst s1.
+    apply IH. exact H2.
+  Qed.
+
+  Lemma proj_cons_same : forall t (o : O) r, proj t ((t, o) :: r) = o :: proj t r.
+  Proof. intros. unfold proj. cbn. rewrite Nat.eqb_refl. reflexivity. Qed.
+
+  Lemma proj_cons_other : forall t u (o : O) r, u <> t -> proj t ((u, o) :: r) = proj t r.
+  Proof.
+    intros. unfold proj. cbn. destruct (Nat.eqb u t) eqn:E; [apply Nat.eqb_eq in E; contradiction|reflexivity].
+  Qed.
+
+  (* under EVERY schedule, if each thread (alone) only reads the shared part, the shared part
+     is untouched and each thread ends in the private state it reaches when run alone *)
+  Theorem interleaving : forall sch s ps,
+    (forall t, read_only stp s (ps t) (proj t sch)) ->
+    fst (sched_run stp s ps sch) = s /\
+    forall t, snd (sched_run stp s ps sch) t = snd (exec stp s (ps t) (proj t sch)).
+  Proof.
+    induction sch as [|[u o] r IH]; intros s ps H.
+    - cbn. split; [reflexivity|]. intro t. reflexivity.
+    - cbn [sched_run]. pose proof (H u) as Hu. rewrite proj_cons_same in Hu. cbn in Hu.
+      destruct Hu as [Hs Hr]. destruct (stp s (ps u) o) as [s1 p1] eqn:E. cbn in Hs, Hr. subst s1.
+      assert (H' : forall t, read_only stp s (set_thread u p1 ps t) (proj t r)).
+      { intro t. unfold set_thread. destruct (Nat.eqb t u) eqn:Et.
+        - apply Nat.eqb_eq in Et. subst t. exact Hr.
+        - apply Nat.eqb_neq in Et. pose proof (H t) as Ht.
+          rewrite proj_cons_other in Ht by congruence. exact Ht. }
+      destruct (IH s _ H') as [I1 I2]. split; [exact I1|].
+      intro t. rewrite I2. unfold set_thread. destruct (Nat.eqb t u) eqn:Et.
+      + apply Nat.eqb_eq in Et. subst t. rewrite proj_cons_same. cbn. rewrite E. reflexivity.
+      + apply Nat.eqb_neq in Et. rewrite proj_cons_other by congruence. reflexivity.
+  Qed.
+End InterleaveProofs.
+
+(* ================================================================ B. histories *)
+Lemma run_is_exec : forall ops dh p, run dh p ops = exec step dh p ops.
+Proof. induction ops as [|o r IH]; intros; cbn; [reflexivity|]. destruct (step dh p o). apply IH. Qed.
+
+(* if no run of the history changes the definition heap, every run yields exactly what it
+   yields when it is the only run ever made *)
+Lemma history_unchanged : forall rs dh,
+  Forall (fun r => fst (run1 dh r) = dh) rs ->
+  history dh rs = (dh, map (fun r => snd (run1 dh r)) rs).
+Proof.
+  induction rs as [|r rest IH]; intros dh H; cbn; [reflexivity|].
+  inversion H as [|? ? H1 H2]; subst. destruct (run1 dh r) as [dh1 out] eqn:E. cbn in H1. subst dh1.
+  rewrite (IH dh H2). reflexivity.
+Qed.
+
+Lemma rerun_equal : forall rs dh i j r,
+  Forall (fun r => fst (run1 dh r) = dh) rs ->
+  nth_error rs i = Some r -> nth_error rs j = Some r ->
+  nth_error (snd (history dh rs)) i = Some (snd (run1 dh r)) /\
+  nth_error (snd (history dh rs)) j = Some (snd (run1 dh r)).
+Proof.
+  intros rs dh i j r H Hi Hj. rewrite (history_unchanged rs dh H). cbn.
+  split; [apply (map_nth_error (fun r => snd (run1 dh r)) i rs Hi)|apply (map_nth_error (fun r => snd (run1 dh r)) j rs Hj)].
+Qed.
+
+(* ================================================================ C. the invariant *)
+Definition cellfree (c : cell) : bool := match c with CPtr (D _) => false | _ => true end.
+Definition objfree (o : obj) : bool :=
+  match o with
+  | OList l => forallb cellfree l
+  | ODict d => forallb (fun kc => cellfree (snd kc)) d
+  end.
+(* no object of the run's own heap points into the definition region *)
+Definition heapfree (h : heap) : Prop := Forall (fun o => objfree o = true) h.
+(* a key not in T is not bound to a definition object *)
+Definition ctxfree (T : list string) (cx : list (string * cell)) : Prop :=
+  forall k c, aget k cx = Some c -> tainted T k = false -> cellfree c = true.
+
+Lemma tree_ind' (Q : tree -> Prop)
+  (hi : forall z, Q (TInt z)) (hr : forall m k, Q (TRef m k))
+  (hl : forall l, Forall Q l -> Q (TList l))
+  (hd : forall d, Forall (fun kt => Q (snd kt)) d -> Q (TDict d)) : forall t, Q t.
+Proof.
+  fix IH 1. intro t. destruct t as [z|m k|l|d].
+  - apply hi.
+  - apply hr.
+  - apply hl. induction l as [|x r IHl]; constructor; [apply IH|exact IHl].
+  - apply hd. induction d as [|[k x] r IHd]; constructor; [apply IH|exact IHd].
+Qed.
+
+(* ---------------- association lists *)
+Lemma aget_aset : forall A k k' (v : A) d,
+  aget k (aset k' v d) = if String.eqb k k' then Some v else aget k d.
+Proof.
+  induction d as [|[k2 v2] r IH]; cbn.
+  - destruct (String.eqb k k'); reflexivity.
+  - destruct (String.eqb k' k2) eqn:E2; cbn.
+    + apply String.eqb_eq in E2. subst k2. destruct (String.eqb k k'); reflexivity.
+    + destruct (String.eqb k k2) eqn:E3.
+      * apply String.eqb_eq in E3. subst k2. rewrite String.eqb_sym in E2. rewrite E2. reflexivity.
+      * exact IH.
+Qed.
+
+Lemma aget_adel : forall A k k' (d : list (string * A)),
+  aget k (adel k' d) = if String.eqb k k' then None else aget k d.
+Proof.
+  induction d as [|[k2 v2] r IH]; cbn.
+  - destruct (String.eqb k k'); reflexivity.
+  - destruct (String.eqb k' k2) eqn:E2.
+    + apply String.eqb_eq in E2. subst k2. rewrite IH. destruct (String.eqb k k'); reflexivity.
+    + cbn. destruct (String.eqb k k2) eqn:E3.
+      * apply String.eqb_eq in E3. subst k2. rewrite String.eqb_sym in E2. rewrite E2. reflexivity.
+      * exact IH.
+Qed.
+
+Lemma forallb_aset : forall (f : cell -> bool) k c d,
+  forallb (fun kc => f (snd kc)) d = true -> f c = true ->
+  forallb (fun kc : string * cell => f (snd kc)) (aset k c d) = true.
+Proof.
+  induction d as [|[k2 v2] r IH]; cbn; intros H Hc.
+  - rewrite Hc. reflexivity.
+  - apply andb_true_iff in H. destruct H as [H1 H2]. destruct (String.eqb k k2); cbn.
+    + rewrite Hc, H2. reflexivity.
+    + rewrite H1. cbn. apply IH; assumption.
+Qed.
+
+Lemma forallb_aget : forall (f : cell -> bool) k c d,
+  forallb (fun kc : string * cell => f (snd kc)) d = true -> aget k d = Some c -> f c = true.
+Proof.
+  induction d as [|[k2 v2] r IH]; cbn; intros H Hg; [discriminate|].
+  apply andb_true_iff in H. destruct H as [H1 H2]. destruct (String.eqb k k2).
+  - inversion Hg; subst. exact H1.
+  - apply IH; assumption.
+Qed.
+
+(* ---------------- heaps *)
+Lemma Forall_upd : forall (Q : obj -> Prop) n o h, Forall Q h -> Q o -> Forall Q (upd n o h).
+Proof.
+  intros Q n o h. revert n. induction h as [|x r IH]; intros n H Ho; destruct n; cbn; try constructor;
+    inversion H; subst; auto.
+Qed.
+
+Lemma Forall_nth : forall (Q : obj -> Prop) n o h, Forall Q h -> nth_error h n = Some o -> Q o.
+Proof. intros Q n o h H Hn. rewrite Forall_forall in H. apply H. eapply nth_error_In. exact Hn. Qed.
+
+Lemma heapfree_app : forall h o, heapfree h -> objfree o = true -> heapfree (h ++ [o]).
+Proof. intros. apply Forall_app. split; [assumption|constructor; [assumption|constructor]]. Qed.
+
+(* ---------------- taint sets *)
+Lemma tainted_taint_false : forall T k k2,
+  tainted (taint k T) k2 = false -> String.eqb k2 k = false /\ tainted T k2 = false.
+Proof.
+  intros T k k2 H. unfold taint in H. destruct (tainted T k) eqn:E.
+  - split; [|exact H]. destruct (String.eqb k2 k) eqn:E2; [|reflexivity].
+    apply String.eqb_eq in E2. subst. congruence.
+  - unfold tainted in H. cbn in H. apply orb_false_iff in H. exact H.
+Qed.
+
+Lemma tainted_untaint_false : forall T k k2,
+  tainted (untaint k T) k2 = false -> String.eqb k2 k = true \/ tainted T k2 = false.
+Proof.
+  induction T as [|x r IH]; intros k k2 H; cbn in *; [right; reflexivity|].
+  destruct (String.eqb k x) eqn:E; cbn in H.
+  - apply String.eqb_eq in E. subst x. destruct (String.eqb k2 k) eqn:E2; [left; reflexivity|].
+    unfold tainted. cbn. unfold tainted in IH. destruct (IH k k2 H) as [C|C]; [congruence|right; exact C].
+  - unfold tainted in *. cbn in *. apply orb_false_iff in H. destruct H as [H1 H2]. rewrite H1. cbn.
+    apply IH. exact H2.
+Qed.
+
+Lemma ctxfree_set_untaint : forall T cx k c,
+  ctxfree T cx -> cellfree c = true -> ctxfree (untaint k T) (aset k c cx).
+Proof.
+  intros T cx k c H Hc k2 c2 Hg Ht. rewrite aget_aset in Hg. destruct (String.eqb k2 k) eqn:E.
+  - inversion Hg; subst. exact Hc.
+  - destruct (tainted_untaint_false _ _ _ Ht) as [C|C]; [congruence|]. eapply H; eassumption.
+Qed.
+
+Lemma ctxfree_set_taint : forall T cx k c, ctxfree T cx -> ctxfree (taint k T) (aset k c cx).
+Proof.
+  intros T cx k c H k2 c2 Hg Ht. destruct (tainted_taint_false _ _ _ Ht) as [E Ht2].
+  rewrite aget_aset, E in Hg. eapply H; eassumption.
+Qed.
+
+Lemma ctxfree_taint : forall T cx k, ctxfree T cx -> ctxfree (taint k T) cx.
+Proof.
+  intros T cx k H k2 c2 Hg Ht. destruct (tainted_taint_false _ _ _ Ht) as [E Ht2]. eapply H; eassumption.
+Qed.
+
+Lemma ctxfree_set : forall T cx k c, ctxfree T cx -> cellfree c = true -> ctxfree T (aset k c cx).
+Proof.
+  intros T cx k c H Hc k2 c2 Hg Ht. rewrite aget_aset in Hg. destruct (String.eqb k2 k).
+  - inversion Hg; subst. exact Hc.
+  - eapply H; eassumption.
+Qed.
+
+Lemma ctxfree_del : forall T cx k, ctxfree T cx -> ctxfree (untaint k T) (adel k cx).
+Proof.
+  intros T cx k H k2 c2 Hg Ht. rewrite aget_adel in Hg. destruct (String.eqb k2 k) eqn:E; [discriminate|].
+  destruct (tainted_untaint_false _ _ _ Ht) as [C|C]; [congruence|]. eapply H; eassumption.
+Qed.
+
+(* ---------------- deep copy creates only private pointers *)
+Definition memo_ok (m : memo) : Prop :=
+  Forall (fun ab : id * id => match snd ab with P _ => True | D _ => False end) m.
+
+Lemma mfind_ok : forall m i j, memo_ok m -> mfind i m = Some j -> cellfree (CPtr j) = true.
+Proof.
+  induction m as [|[a b] r IH]; cbn; intros i j H Hf; [discriminate|].
+  inversion H; subst. destruct (id_eqb i a).
+  - inversion Hf; subst. cbn in *. destruct j; [contradiction|reflexivity].
+  - eapply IH; eassumption.
+Qed.
+
+Section CopyOk.
+  Context (go : heap -> memo -> cell -> option (heap * memo * cell)).
+  Hypothesis go_ok : forall h m c h' m' c', go h m c = Some (h', m', c') ->
+    heapfree h -> memo_ok m -> heapfree h' /\ memo_ok m' /\ cellfree c' = true.
+
+  Lemma copy_cells_ok : forall l h m h' m' cs, copy_cells go l h m = Some (h', m', cs) ->
+    heapfree h -> memo_ok m -> heapfree h' /\ memo_ok m' /\ forallb cellfree cs = true.
+  Proof.
+    induction l as [|c r IH]; cbn; intros h m h' m' cs H Hh Hm.
+    - inversion H; subst. auto.
+    - destruct (go h m c) as [[[h1 m1] c1]|] eqn:E; [|discriminate].
+      destruct (go_ok _ _ _ _ _ _ E Hh Hm) as [A [B C]].
+      destruct (copy_cells go r h1 m1) as [[[h2 m2] cs2]|] eqn:E2; [|discriminate].
+      inversion H; subst. destruct (IH _ _ _ _ _ E2 A B) as [A2 [B2 C2]].
+      cbn. rewrite C, C2. auto.
+  Qed.
+
+  Lemma copy_pairs_ok : forall l h m h' m' cs, copy_pairs go l h m = Some (h', m', cs) ->
+    heapfree h -> memo_ok m ->
+    heapfree h' /\ memo_ok m' /\ forallb (fun kc : string * cell => cellfree (snd kc)) cs = true.
+  Proof.
+    induction l as [|[k c] r IH]; cbn; intros h m h' m' cs H Hh Hm.
+    - inversion H; subst. auto.
+    - destruct (go h m c) as [[[h1 m1] c1]|] eqn:E; [|discriminate].
+      destruct (go_ok _ _ _ _ _ _ E Hh Hm) as [A [B C]].
+      destruct (copy_pairs go r h1 m1) as [[[h2 m2] cs2]|] eqn:E2; [|discriminate].
+      inversion H; subst. destruct (IH _ _ _ _ _ E2 A B) as [A2 [B2 C2]].
+      cbn. rewrite C, C2. auto.
+  Qed.
+End CopyOk.
+
+Lemma copy_ok : forall fuel dh h m c h' m' c', copy fuel dh h m c = Some (h', m', c') ->
+  heapfree h -> memo_ok m -> heapfree h' /\ memo_ok m' /\ cellfree c' = true.
+Proof.
+  induction fuel as [|f IH]; intros dh h m c h' m' c' H Hh Hm; destruct c as [z|i]; cbn in H.
+  - inversion H; subst. auto.
+  - destruct (mfind i m) as [j|] eqn:Ef; [|discriminate]. inversion H; subst.
+    split; [assumption|]. split; [assumption|]. eapply mfind_ok; eassumption.
+  - inversion H; subst. auto.
+  - destruct (mfind i m) as [j|] eqn:Ef.
+    + inversion H; subst. split; [assumption|]. split; [assumption|]. eapply mfind_ok; eassumption.
+    + destruct (hget dh h i) as [[l|d]|]; [| |discriminate].
+      * destruct (copy_cells (copy f dh) l h m) as [[[h1 m1] cs]|] eqn:E; [|discriminate].
+        inversion H; subst.
+        destruct (copy_cells_ok (copy f dh) (fun h m c h' m' c' => IH dh h m c h' m' c') _ _ _ _ _ _ E Hh Hm)
+          as [A [B C]].
+        split; [apply heapfree_app; assumption|]. split; [constructor; [exact I|assumption]|reflexivity].
+      * destruct (copy_pairs (copy f dh) d h m) as [[[h1 m1] cs]|] eqn:E; [|discriminate].
+        inversion H; subst.
+        destruct (copy_pairs_ok (copy f dh) (fun h m c h' m' c' => IH dh h m c h' m' c') _ _ _ _ _ _ E Hh Hm)
+          as [A [B C]].
+        split; [apply heapfree_app; assumption|]. split; [constructor; [exact I|assumption]|reflexivity].
+Qed.
+
+(* ---------------- formatting allocates only private, definition-free objects *)
+Definition fmt_spec (T : list string) (f : tree -> priv -> priv * cell) (t : tree) : Prop :=
+  forall p p' c, f t p = (p', c) ->
+    ctx p' = ctx p /\ trace p' = trace p /\
+    (heapfree (ph p) -> ctxfree T (ctx p) -> byref_tainted T t = false -> running p' = true ->
+     heapfree (ph p') /\ cellfree c = true).
+
+Lemma fmt_cells_ok : forall T f l, Forall (fmt_spec T f) l ->
+  forall p p' cs, fmt_cells f l p = (p', cs) ->
+    ctx p' = ctx p /\ trace p' = trace p /\
+    (heapfree (ph p) -> ctxfree T (ctx p) -> existsb (byref_tainted T) l = false -> running p' = true ->
+     heapfree (ph p') /\ forallb cellfree cs = true).
+Proof.
+  intros T f l H. induction H as [|t r Ht Hr IH]; intros p p' cs E; cbn in E.
+  - inversion E; subst. repeat split; auto.
+  - destruct (f t p) as [p1 c] eqn:E1. destruct (Ht _ _ _ E1) as [A [B C]].
+    destruct (running p1) eqn:R1.
+    + destruct (fmt_cells f r p1) as [p2 cs2] eqn:E2. inversion E; subst.
+      destruct (IH _ _ _ E2) as [A2 [B2 C2]].
+      split; [congruence|]. split; [congruence|].
+      intros Hh Hc Hb Hr'. cbn in Hb. apply orb_false_iff in Hb. destruct Hb as [Hb1 Hb2].
+      destruct (C Hh Hc Hb1 eq_refl) as [Hh1 Hc1].
+      rewrite <- A in Hc. destruct (C2 Hh1 Hc Hb2 Hr') as [Hh2 Hcs].
+      split; [assumption|]. cbn. rewrite Hc1, Hcs. reflexivity.
+    + inversion E; subst. split; [assumption|]. split; [assumption|].
+      intros _ _ _ Hr'. congruence.
+Qed.
+
+Lemma fmt_pairs_ok : forall T f l, Forall (fun kt => fmt_spec T f (snd kt)) l ->
+  forall p p' cs, fmt_pairs f l p = (p', cs) ->
+    ctx p' = ctx p /\ trace p' = trace p /\
+    (heapfree (ph p) -> ctxfree T (ctx p) ->
+     existsb (fun kt => byref_tainted T (snd kt)) l = false -> running p' = true ->
+     heapfree (ph p') /\ forallb (fun kc : string * cell => cellfree (snd kc)) cs = true).
+Proof.
+  intros T f l H. induction H as [|[k t] r Ht Hr IH]; intros p p' cs E; cbn in E.
+  - inversion E; subst. repeat split; auto.
+  - cbn in Ht. destruct (f t p) as [p1 c] eqn:E1. destruct (Ht _ _ _ E1) as [A [B C]].
+    destruct (running p1) eqn:R1.
+    + destruct (fmt_pairs f r p1) as [p2 cs2] eqn:E2. inversion E; subst.
+      destruct (IH _ _ _ E2) as [A2 [B2 C2]].
+      split; [congruence|]. split; [congruence|].
+      intros Hh Hc Hb Hr'. cbn in Hb. apply orb_false_iff in Hb. destruct Hb as [Hb1 Hb2].
+      destruct (C Hh Hc Hb1 eq_refl) as [Hh1 Hc1].
+      rewrite <- A in Hc. destruct (C2 Hh1 Hc Hb2 Hr') as [Hh2 Hcs].
+      split; [assumption|]. cbn. rewrite Hc1, Hcs. reflexivity.
+    + inversion E; subst. split; [assumption|]. split; [assumption|].
+      intros _ _ _ Hr'. congruence.
+Qed.
+
+Lemma fmt_ok : forall T fuel dh t, fmt_spec T (fmt fuel dh) t.
+Proof.
+  intros T fuel dh. induction t as [z|m k|l IH|d IH] using tree_ind'; intros p p' c E; cbn [fmt] in E.
+  - inversion E; subst. repeat split; auto.
+  - destruct (aget k (ctx p)) as [c0|] eqn:Eg.
+    + destruct m.
+      * destruct (copy fuel dh (ph p) [] c0) as [[[h m'] c']|] eqn:Ec; inversion E; subst; cbn.
+        -- split; [reflexivity|]. split; [reflexivity|]. intros Hh _ _ _.
+           destruct (copy_ok _ _ _ _ _ _ _ _ Ec Hh (Forall_nil _)) as [A [_ C]]. auto.
+        -- split; [reflexivity|]. split; [reflexivity|]. intros _ _ _ R. discriminate.
+      * inversion E; subst. split; [reflexivity|]. split; [reflexivity|].
+        intros Hh Hc Hb _. cbn in Hb. split; [assumption|]. eapply Hc; eassumption.
+      * inversion E; subst. split; [reflexivity|]. split; [reflexivity|].
+        intros Hh Hc Hb _. cbn in Hb. split; [assumption|]. eapply Hc; eassumption.
+    + inversion E; subst. cbn. split; [reflexivity|]. split; [reflexivity|]. intros _ _ _ R. discriminate.
+  - destruct (fmt_cells (fmt fuel dh) l p) as [p1 cs] eqn:E1.
+    destruct (fmt_cells_ok T _ _ IH _ _ _ E1) as [A [B C]].
+    destruct (running p1) eqn:R1.
+    + unfold alloc in E. inversion E; subst. cbn. split; [assumption|]. split; [assumption|].
+      intros Hh Hc Hb _. cbn in Hb. destruct (C Hh Hc Hb eq_refl) as [Hh1 Hcs].
+      split; [apply heapfree_app; assumption|reflexivity].
+    + inversion E; subst. split; [assumption|]. split; [assumption|]. intros _ _ _ R. congruence.
+  - destruct (fmt_pairs (fmt fuel dh) d p) as [p1 cs] eqn:E1.
+    destruct (fmt_pairs_ok T _ _ IH _ _ _ E1) as [A [B C]].
+    destruct (running p1) eqn:R1.
+    + unfold alloc in E. inversion E; subst. cbn. split; [assumption|]. split; [assumption|].
+      intros Hh Hc Hb _. cbn in Hb. destruct (C Hh Hc Hb eq_refl) as [Hh1 Hcs].
+      split; [apply heapfree_app; assumption|reflexivity].
+    + inversion E; subst. split; [assumption|]. split; [assumption|]. intros _ _ _ R. congruence.
+Qed.
